@@ -32,6 +32,9 @@ CHECKS = {
     "C17": ("output monitor on *_schema / definitions_schema: dialect meta-schema validation (jsonschema), $ref closure / prefix walker, in-place reference-cycle detector, expected extraction set from use counts of the program spec, definitions_schema vs inline $defs, name-collision probes",
             "Exploration: every schema generated for the generated programs x entry points x 5 versions x all_refs x ref_factory must validate against the meta-schema of the dialect it declares, have every $ref resolve (inline or in definitions_schema called with the same arguments), contain no reference cycle through in-place applicators, extract exactly the expected named types, and two classes sharing a type name must be refused.",
             "Trusted: jsonschema's bundled meta-schemas; the walker's notion of sub-schema positions; the expected extraction set computed from the TypeSpec (walk stopping at already seen named types).", "DESIGN §5 C17"),
+    "C18": ("differential monitor across dialects: the target dialect's own validator (jsonschema draft-07 / 2019-09; OpenAPI 3.0 through its documented mapping) vs the 2020-12 validator on the same data + foreign-keyword / reference-prefix walker over every sub-schema position",
+            "Exploration: for generated programs and data, the schema produced with version=V must accept exactly what the 2020-12 schema accepts under V's rules, and contain only V's vocabulary and reference prefix at every nesting level (also inside definitions_schema for OpenAPI).",
+            "Trusted: jsonschema validators per draft; keyword sets per dialect listed in vf/jsonschema_o.py; OpenAPI 3.0 semantics = nullable mapping + draft-07.", "DESIGN §5 C18"),
 }
 PLANNED = {
 }
